@@ -595,9 +595,20 @@ def judge_pair(ctx, ok, case, spec, impl, model):
         ctx.disagree("Assemble.series = list(series_a)", case, model["series"], impl["series"][0])
     if model["series"] != model["series_rev"]:
         ctx.count("ref-order-changes-blanks-only")      # a spliced text ending in a blank next to a removed reference
-    if [norm(x) for x in model["series"]] != [norm(x) for x in model["series_rev"]]:
+    # a referenced pass-through (HED / untyped) cell that is `n/a` padded with blanks: when a neighbouring reference
+    # is removed the padding can be absorbed, the text becomes exactly `n/a` and the row filter drops it -- then the
+    # answer depends on the processing order.  Reported as an observation; both outcomes are accepted.
+    def padded_na_rows():
+        idc = [c for c in impl["refs"] if c in impl["columns"] and (c == "HED" or (c in spec and spec[c]["kind"] == "malformed"))]
+        return {i for i, r in enumerate(rows) for c in idc
+                if dict(zip(header, r)).get(c, "").strip() == "n/a" and dict(zip(header, r)).get(c) != "n/a"}
+    padded = padded_na_rows()
+    diff_rows = {i for i, (x, y) in enumerate(zip(model["series"], model["series_rev"])) if norm(x) != norm(y)}
+    if diff_rows - padded:
         ctx.violation("same-answer-for-any-iteration-order-of-the-reference-set", case,
                       {"order": impl["refs"], "series": model["series"], "reversed": model["series_rev"]})
+    elif diff_rows:
+        ctx.count("padded-n/a-reference-cell:order-dependent-row", len(diff_rows))
     # ---- oracle
     if not (impl["series"][0] == impl["series"][1] == impl["series"][2]):
         ctx.violation("same-answer-every-time", case, impl["series"])
@@ -611,6 +622,11 @@ def judge_pair(ctx, ok, case, spec, impl, model):
     if not impl["dict_same"]:
         ctx.violation("sidecar-unchanged", case, "loaded_dict differs after assembly")
     want = expected_series(spec, header, rows)
+    want_alt = want
+    if padded:      # the same rows with the padded cells read as missing
+        idc = {c for c in impl["refs"] if c in impl["columns"]}
+        rows_alt = [[("n/a" if (h in idc and x.strip() == "n/a") else x) for h, x in zip(header, r)] for r in rows]
+        want_alt = expected_series(spec, header, rows_alt)
     for i, (got, exp) in enumerate(zip(impl["series"][0], want)):
         cells = dict(zip(header, rows[i]))
         na_ref = [r for r in impl["refs"] if r in impl["columns"] and
@@ -638,7 +654,9 @@ def judge_pair(ctx, ok, case, spec, impl, model):
         if not balanced(got) and all(balanced(x) for x in rows[i]) and all(isinstance(v, str) and balanced(v)
                                                                             for v in chosen if v is not None):
             ctx.violation("row-parentheses-balanced", {**case, "row": i}, {"got": got, "expected": exp})
-        if norm(got) != norm(exp):
+        if norm(got) != norm(exp) and i in padded and norm(got) == norm(want_alt[i]):
+            ctx.count("padded-n/a-reference-cell:read-as-missing")
+        elif norm(got) != norm(exp):
             ctx.violation("row-is-the-prescribed-annotation", {**case, "row": i}, {"got": got, "expected": exp},
                           signature=sig)
         elif not ok(got):
@@ -781,7 +799,10 @@ def run(ctx):
     ctx.notes.append("reported, not judged: (1) the .tsv loader (pandas default NA strings) reads N/A, NA, nan, NaN, None, "
                      "null, NULL, #N/A, <NA>, -nan as n/a before assembly (histogram tsv-loader-reads-cell-as-n/a); "
                      "(2) a categorical entry keyed 'n/a' or '' in the sidecar is selected by an n/a / empty cell "
-                     "(_category_handler has no missing-cell test); (3) a blank-only HED cell is kept as an item")
+                     "(_category_handler has no missing-cell test); (3) a blank-only HED cell is kept as an item; (4) a referenced "
+                     "HED/untyped cell 'n/a ' (padded) can lose its padding to a neighbouring removal, become exactly 'n/a' "
+                     "and be dropped: the row then depends on the iteration order of the reference set (histogram "
+                     "padded-n/a-reference-cell:*)")
     ctx.notes.append("referenced columns carry no references themselves (the iteration order of the reference set is "
                      "taken from the implementation and the model is also run with the reversed order)")
     ctx.notes.append("ASCII names and blanks; DataFrame index is the default RangeIndex")
